@@ -166,6 +166,8 @@ def k_setbytes(l1):
 
 def run(chk):
     prog, base = setup(chk)
+    from .common import state_shape
+    state_shape(chk, prog)
     chk.bounds = ["all 2^256 strings of length 32 (symbolic bytes); every other length via one symbolic length"]
     chk.outside = ["'y is the y-coordinate of a curve point' <=> (y^2-1)/(d*y^2+1) is a square: definition of the curve, d*y^2+1 != 0 by the concrete Euler criterion"]
     chk.assumptions = ["SqrtRatio replaced by its C16 contract inside Point.SetBytes; the contract itself (exponent chain, field kernels and the case logic of the real body) is re-discharged in this run",
@@ -190,4 +192,4 @@ def run(chk):
 
 def safety_net(chk):
     from sym import ptreplay
-    return decode_battery(chk.seed) or ptreplay.battery_decode_history(chk.seed)
+    return decode_battery(chk.seed) or ptreplay.battery_decode_history(chk.seed) or ptreplay.battery_receiver_history(chk.seed)
